@@ -179,7 +179,7 @@ def run_lines_resilient(binary, args, lines, per_case_timeout=20, env=None, mem_
                 rc = -9
             te.join(timeout=2)
             eb = (errbuf[0] if errbuf else b"")
-            tail = eb[:700] + (b" ... " + eb[-300:] if len(eb) > 1000 else b"")
+            tail = eb[:6000] + (b" ... " + eb[-300:] if len(eb) > 6300 else b"")
             cid = chunk[got].split(" ", 1)[0]
             results.append("%s CRASH %d %s" % (cid, rc, tail.hex() or "-"))
         i += got + 1
